@@ -72,7 +72,8 @@ fn verdict(tb: &Table, line: &[String], allowed: &[Vec<OutTok>]) -> (bool, &'sta
             let toks: Vec<String> = a.iter().map(|t| t.t.clone()).collect();
             let htext = render_line(&toks);
             let hand = parse::parse_with(&htext, None);
-            let same_parse = obs.status == hand.status && (obs.status == "err" || obs.printed == hand.printed);
+            // a syntax error must be the same syntax error (same cause, same commands parsed before it)
+            let same_parse = obs.status == hand.status && obs.printed == hand.printed && obs.err == hand.err;
             // origin of every word: only comparable when the parse succeeded
             // (after a syntax error the rest of the line is never tokenised)
             let mut same_words = true;
@@ -104,6 +105,11 @@ fn replay(args: &[String]) -> i32 {
     let input = open_in(args);
     let mut out = open_out(args);
     let max_samples = opt_usize(args, "--samples", 6);
+    // after this many failures the rest of the input is not replayed (a broken
+    // parser can make every failing case expensive)
+    let max_bad = opt_usize(args, "--max-bad", 100);
+    let mut stopped_early = false;
+    let mut bad_seen = 0usize;
     let mut n_cases = 0usize; // lines read
     let mut n_groups = 0usize; // (table, line) pairs judged
     let mut n_unspec = 0usize;
@@ -117,14 +123,15 @@ fn replay(args: &[String]) -> i32 {
     let mut pending: HashMap<String, (Table, Vec<String>, Vec<Vec<OutTok>>, bool)> = HashMap::new();
 
     let mut handle = |tb: &Table, line: &[String], allowed: &[Vec<OutTok>], unspec: bool, amb: bool,
-                      out: &mut Box<dyn Write>| {
+                      out: &mut Box<dyn Write>|
+     -> bool {
         n_groups += 1;
         if amb {
             n_amb += 1;
         }
         if unspec {
             n_unspec += 1;
-            return;
+            return false;
         }
         let (ok, class, detail) = verdict(tb, line, allowed);
         let plain: Vec<String> = line.iter().filter(|t| *t != "LC").cloned().collect();
@@ -149,6 +156,7 @@ fn replay(args: &[String]) -> i32 {
                 "detail": detail});
             writeln!(out, "{rec}").unwrap();
         }
+        !ok
     };
 
     for l in input.lines() {
@@ -157,6 +165,10 @@ fn replay(args: &[String]) -> i32 {
             continue;
         }
         let v: Value = serde_json::from_str(&l).expect("json");
+        if bad_seen >= max_bad {
+            stopped_early = true;
+            break;
+        }
         n_cases += 1;
         let tb = table_from_json(&v["tb"]);
         let line = strs(&v["line"]);
@@ -171,19 +183,23 @@ fn replay(args: &[String]) -> i32 {
             }
             e.3 |= unspec;
         } else {
-            handle(&tb, &line, &[outv], unspec, false, &mut out);
+            bad_seen += handle(&tb, &line, &[outv], unspec, false, &mut out) as usize;
         }
     }
     let mut keys: Vec<String> = pending.keys().cloned().collect();
     keys.sort();
     for k in keys {
         let (tb, line, allowed, unspec) = pending.remove(&k).unwrap();
-        handle(&tb, &line, &allowed, unspec, true, &mut out);
+        if bad_seen >= max_bad {
+            stopped_early = true;
+            break;
+        }
+        bad_seen += handle(&tb, &line, &allowed, unspec, true, &mut out) as usize;
     }
     out.flush().unwrap();
     let summary = json!({"lines": n_cases, "cases": n_groups, "unspecified_skipped": n_unspec,
         "agree_parsed": n_ok_parsed, "agree_syntax_error": n_ok_error, "bad": n_bad,
-        "nontrivial": n_nontrivial, "ambiguous": n_amb, "samples": samples});
+        "nontrivial": n_nontrivial, "ambiguous": n_amb, "stopped_early": stopped_early, "samples": samples});
     println!("{summary}");
     0
 }
@@ -202,9 +218,17 @@ fn random(args: &[String]) -> i32 {
     let n = opt_usize(args, "--n", 1000);
     let mut out = open_out(args);
     let mut g = model::Gen::new(yvcommon::util::seed() ^ 0xc17);
+    let mut abnormal = 0;
     for id in 1..=n {
         let (tb, line) = g.case();
-        writeln!(out, "{}", observation(id, &tb, &line)).unwrap();
+        let o = observation(id, &tb, &line);
+        if o["st"] == "hang" || o["st"] == "panic" {
+            abnormal += 1;
+        }
+        writeln!(out, "{o}").unwrap();
+        if abnormal >= 100 {
+            break; // a broken parser makes every such case expensive
+        }
     }
     out.flush().unwrap();
     0
@@ -266,7 +290,7 @@ fn judge(args: &[String]) -> i32 {
             let toks = strs(a);
             let htext = render_line(&toks);
             let hand = parse::parse_with(&htext, None);
-            let same = r["st"] == hand.status.as_str() && (hand.status == "err" || r["printed"] == hand.printed.as_str());
+            let same = r["st"] == hand.status.as_str() && r["printed"] == hand.printed.as_str() && r["err"] == hand.err.as_str();
             hands.push(json!({"text": htext, "status": hand.status, "printed": hand.printed, "err": hand.err}));
             if same {
                 ok = true;
